@@ -145,6 +145,19 @@ CHECKS["C13"] = dict(
          "Physical ids offered by the link layer are assumed unused (contract).",
     design="3/C13")
 
+CHECKS["C09"] = dict(
+    engine="symx",
+    technique="exploration of host histories by explorer choice points through the real SDK, assembler, NV transpiler and Executor (shape-driven); outcomes / Bell indices as z3 integers",
+    text="Every history of 3 (thorough 4) operations + final flush over {new qubit, gate, reset, measure in place / destructively, free, "
+         "flush, create_keep, recv_keep, sequential keep with post routine, EPR contexts} for qubit budgets 2,3 (thorough 1,2,3,5), generic "
+         "hardware, NV hardware config and NV + transpiler, with the host keeping at most budget (NV: budget-1) qubits alive: no emitted "
+         "instruction faults, after every flush active_qubits = controller's allocated virtual qubits = the handles the host still holds, "
+         "and a freed ID is handed out again. Histories that contain free() or sequential/context EPR operations are attributed to two "
+         "recorded findings; all other histories must be clean.",
+    note="Shape-driven: exhaustive over histories inside the bound; the solver only keeps data-dependent branches open. Coarse known-finding "
+         "attribution (by operation kinds in the history) is stated in DESIGN.md. Trusted: NetExecutor harness, in-order delivery.",
+    design="3/C09")
+
 NOT_YET = "check not built yet in this revision (work in progress; see DESIGN.md section 3 for the planned solver-based check)"
 NOT_APPLICABLE = {}
 
